@@ -21,6 +21,10 @@ CONSTANTS MaxPkt = 8800 BufLen = 281600 Dev = {} TraceFile = "@TRACE@"
 """
 
 
+SS_MC = "SPECIFICATION Spec\nCONSTANTS\n  Senders <- MCSenders\n  Dev = %s\nINVARIANTS FramesIntact\nPROPERTIES AllSent\nCHECK_DEADLOCK FALSE\n"
+SS_HEAD = 'SPECIFICATION TSpec\nCONSTANTS\n  Senders <- MCSenders\n  Dev = {}\n  TraceFile = "@TRACE@"\n'
+
+
 def run_multi(pid, tier, spec_dir, mc_runs, jobs, rule_text, assumptions, nontrivial):
     """jobs: [(driver test, env, trace file, trace module, head, props, invs, reset-splitting?)]"""
     t0 = time.time()
@@ -111,11 +115,14 @@ def run(pid, tier, replay=None):
             ["TLC, JVM, Go runtime trusted", "in-memory transport (fw/face/verif_hooks.go); congestion marking by queue length not exercised", "one-frame tolerance Slack = 64 bytes (DESIGN C10)"],
             lambda ex: any((r.get("ev") == "send" and len(r.get("frames", [])) > 1) or (r.get("ev") == "rx" and r["f"]["cnt"] > 1) for r in ex))
     return run_multi(pid, tier, "link",
-        [("stream", "StreamMC.tla", ST_MC % (5 if th else 4), 12, 3000)],
-        [("TestStreamGen", {"VERIF_N": 240 if th else 48, "VERIF_FULL": 1 if th else 0}, "stream.ndjson", "StreamTrace.tla", ST_HEAD, ["P_C11"], []),
+        [("stream", "StreamMC.tla", ST_MC % (5 if th else 4), 12, 3000),
+         ("send", "StreamSendMC.tla", SS_MC % "{}", 4, 600)],
+        [("TestStreamSend", {"VERIF_N": 400 if th else 40}, "stream_send.ndjson", "StreamSendTrace.tla", SS_HEAD, [], ["I_C11send"]),
+         ("TestStreamGen", {"VERIF_N": 240 if th else 48, "VERIF_FULL": 1 if th else 0}, "stream.ndjson", "StreamTrace.tla", ST_HEAD, ["P_C11"], []),
          ("TestStreamApp", {"VERIF_N": 96 if th else 24}, "stream_app.ndjson", "StreamTrace.tla", ST_HEAD, ["P_C11"], [])],
         "streams of well-formed TLV blocks (sizes 2..8800, 1/3/5-byte type and length forms) many times the 32-packet buffer, read by the real readTlvStream through a scripted "
         "io.Reader (1-byte reads, buffer-filling reads, tiny, large, near-max, reads ending inside every T/L field) and by the application StreamFace over net.Pipe; "
-        "every read is validated by ReadOK; non-trivial = stream longer than the receive buffer or read pattern ending inside headers",
+        "every read is validated by ReadOK; sending side: 2..3 goroutines send multi-buffer wires on one real StreamFace, the raw stream read by the peer must keep every "
+        "packet's buffers contiguous (StreamSend.tla); non-trivial = stream longer than the receive buffer or read pattern ending inside headers",
         ["TLC, JVM, Go runtime, testing/synctest trusted", "block contents compared by SHA-256 prefix", "real sockets are replaced by a scripted reader / net.Pipe"],
-        lambda ex: len(ex) > 3)
+        lambda ex: len(ex) > 3 or any(r.get("ev") == "sent" and r.get("buffers", 0) > 3 for r in ex))
